@@ -247,7 +247,7 @@ def run_engine(tier, seed, corpus_dir=None):
         plan = [("dflt", i % 2 == 0) for i in range(28)] + [(s, (i + j) % 2 == 0) for j in range(2) for i, s in enumerate(STRATEGIES[1:])]
     jobs = [(i, seed * 1000003 + i, nops, s, lx) for i, (s, lx) in enumerate(plan)]
     # A7: streams in which HWLOC_CPUKINDS_RANKING changes between the calls of one process (every value in every stream)
-    nmix, nrank = (2, 3) if tier == "quick" else (6, 10)
+    nmix, nrank = (2, 3) if tier == "quick" else (4, 8)
     mixjobs = [(1000 + i, seed * 1000003 + 1000 + i, nops, "dflt", i % 2 == 0, i % 3 == 2, "mix" if i < nmix else "rank")
                for i in range(nmix + nrank)]
     if os.environ.get("VERIF_C15_NO_MIX", "0") not in ("", "0"):   # development knob: the streams as they were before A7
